@@ -126,6 +126,11 @@ def make_source(fv):
     if has_c:
         if fv["cons"] in ("c", "disc"):
             cons_exprs.append(("c_constraint", ["c", "w"], "c <= w + 0.2371" if not wdisc else "c <= w + 0.7371"))
+        elif fv["cons"] == "lower":
+            # (enumerated explicitly by C02 only, with T=1) lower bound makes the FIRST grid point infeasible and
+            # utility is -inf at feasible points c <= 1: agents with little wealth have only -inf feasible choices
+            cons_exprs.append(("c_constraint", ["c", "w"], "c <= w + 0.2371"))
+            cons_exprs.append(("lb_constraint", ["c"], "c >= 0.7629"))
         elif fv["cons"] == "tight":
             cons_exprs.append(("c_constraint", ["c", "w"], "c <= w - 0.7629" if not wdisc else "c <= w - 0.2629"))
         elif fv["cons"] == "period":
@@ -169,7 +174,7 @@ def make_source(fv):
         terms.append("- 0.17 * e * e + 0.21 * e * s + 0.02 * e * w")
     if has_c:
         uargs.append("c")
-        terms.append("+ jnp.log(c)")
+        terms.append("+ jnp.log(jnp.maximum(c - 1.0, 0.0))" if fv["cons"] == "lower" else "+ jnp.log(c)")
     if has_l:
         uargs.append("b")
         terms.append("+ 0.3 * jnp.log(b) - 0.05 * b * d")
